@@ -40,7 +40,11 @@ def _identity(draw):
             ln = draw(st.one_of(st.integers(0, 12), st.integers(0, 244), st.sampled_from([0, 1, 100, 120, 122, 123, 240, 243, 244, 245])))
         text = draw(st.booleans())
         ch = draw(st.integers(0x41, 0x5A))
-        if text:
+        if ln and draw(st.integers(0, 7)) == 0:
+            # values that are "blank" to a careless filter: white space only, NUL bytes, the digit zero
+            blank = draw(st.sampled_from([' ', '\n', '\t', '0', '\x00']))
+            objs.append([i, 's', blank * min(ln, 9)] if text else [i, 'b', (blank.encode() * min(ln, 9)).hex()])
+        elif text:
             objs.append([i, 's', chr(ch) * ln])
         else:
             objs.append([i, 'b', bytes([(ch + j) & 0xFF for j in range(ln)]).hex()])
